@@ -47,6 +47,14 @@ CLAIMED = {
         note="Necessary conditions only: that accepted integrals of motion make H block diagonal and operators single-target is a value-level fact and is not decided; two hazards (mapsTo first-state rule, hash-compared quantum numbers) are documented, not armed. Virtual calls summarised through the static callee.",
         technique="CFG path enumeration with pairing rule + exception summaries discharged by branch-fact entailment + sibling-structure comparison",
         ref="DESIGN.md §3 C07"),
+    "C16": dict(
+        text="Structural necessary conditions of the dispatch protocol, decided on all CFG paths: an order is send(Work, job) + DispatchMap[job]=worker + irecv(worker, Pending) in that worker's slot, one job and one worker popped per order "
+             "under both stacks non-empty; the worker re-posts its receive after every completed one, cancels it iff Finish, reports completion with send(boss, Pending) and resets its state, and its members are initialised before the "
+             "receive captures them; Finish is sent only when no job is queued and all workers are idle, once per worker; completed workers are re-queued; root/non-root arms disseminating the job map match; the dispatch loop is "
+             "collective-free; the std::sort comparator is strict.",
+        note="The property itself (exactly-once and termination for every interleaving and across rounds) quantifies over schedules and is NOT decided: that needs model checking of the protocol, a different technique family. Trusts Boost.MPI request semantics.",
+        technique="pairing / dominance / typestate rules over clang AST+CFG with branch-fact dataflow; SPMD arm matching",
+        ref="DESIGN.md §3 C16"),
 }
 
 NOT_YET = {}
